@@ -10,15 +10,18 @@
 EXTENDS TSolver, Sat, Json, IOUtils
 
 Tr == ndJsonDeserialize(IOEnv.TRACE)
-VARIABLES tt, l, viol, memo, theory, okLen, stale
+VARIABLES tt, l, viol, memo, theory, okLen, stale, late
 \* memo: set of literals (as <<atom, polarity>> pairs) -> first definitive complete verdict
 \* okLen: length of the prefix of the stack that has passed a check; stale: some backtrack kept
 \*   literals that were asserted after the last successful check (THandler never does that: it checks
 \*   right after every batch of assertions and a conflict removes the whole batch).  stale only labels
 \*   violation records, for the attribution of a known finding.
-vars == <<stack, bad, hist, tt, l, viol, memo, theory, okLen, stale>>
+\* late: some atom of this sequence was declared while literals were asserted (atoms of lemmas and splits reach the
+\*   solvers like that); like stale it only labels violation records.
+vars == <<stack, bad, hist, tt, l, viol, memo, theory, okLen, stale, late>>
 Ev == Tr[l]
-V(p, why) == [p |-> p, l |-> l, why |-> why, theory |-> theory, stale |-> stale]
+V(p, why) == [p |-> p, l |-> l, why |-> why, theory |-> theory, stale |-> stale,
+              late |-> (late \/ (Ev.e = "assert" /\ Ev.late))]
 Note(vs) == /\ \A v \in vs : PrintT("@@VIOL " \o ToJson(v))
             /\ viol' = viol + Cardinality(vs) /\ TLCSet(2, l)
 If(c, v) == IF c THEN {v} ELSE {}
@@ -33,42 +36,44 @@ KVerdict(S, h) ==
   ELSE "unknown"
 Key(S) == { <<x.t, x.s>> : x \in S }
 
-Init == /\ TInit /\ tt = <<>> /\ l = 1 /\ viol = 0 /\ memo = <<>> /\ theory = "" /\ okLen = 0 /\ stale = FALSE /\ TLCSet(2, 0)
+Init == /\ TInit /\ tt = <<>> /\ l = 1 /\ viol = 0 /\ memo = <<>> /\ theory = "" /\ okLen = 0 /\ stale = FALSE /\ late = FALSE /\ TLCSet(2, 0)
 TrFam == /\ Ev.e = "Fam" /\ l' = l + 1 /\ tt' = Ev.tt /\ theory' = Ev.theory /\ memo' = <<>>
-         /\ stack' = <<>> /\ bad' = FALSE /\ hist' = <<>> /\ okLen' = 0 /\ stale' = FALSE /\ viol' = viol /\ TLCSet(2, l)
+         /\ stack' = <<>> /\ bad' = FALSE /\ hist' = <<>> /\ okLen' = 0 /\ stale' = FALSE /\ late' = FALSE /\ viol' = viol /\ TLCSet(2, l)
 TrReset == /\ Ev.e = "Reset" /\ l' = l + 1 /\ stack' = <<>> /\ bad' = FALSE /\ hist' = <<>>
-           /\ okLen' = 0 /\ stale' = FALSE
+           /\ okLen' = 0 /\ stale' = FALSE /\ late' = FALSE
            /\ UNCHANGED <<tt, theory, memo>> /\ viol' = viol /\ TLCSet(2, l)
 
 TrAssert ==
-  /\ Ev.e = "assert" /\ l' = l + 1 /\ UNCHANGED <<tt, theory, memo, okLen, stale>>
+  /\ Ev.e = "assert" /\ l' = l + 1 /\ UNCHANGED <<tt, theory, memo, okLen, stale>> /\ late' = (late \/ Ev.late)
   /\ LET lit == [t |-> Ev.t, n |-> Ev.n, s |-> Ev.s] IN
      /\ AssertEff(lit, Ev.ok)
      /\ Note( If(~Ev.ok /\ Ev.mon /\ ~AssertGuard(Ev.ok, KVerdict(Lits(stack) \cup {lit}, Ev.h)),
                  V("C22", [assertReportedInconsistency |-> Ev.t])) )
 TrCheck ==
-  /\ Ev.e = "check" /\ l' = l + 1 /\ UNCHANGED <<tt, theory, stale>>
+  /\ Ev.e = "check" /\ l' = l + 1 /\ UNCHANGED <<tt, theory, stale, late>>
   /\ CheckEff(Ev.res)
   /\ okLen' = IF Ev.res = "SAT" THEN Len(stack) ELSE okLen
   /\ LET S == Lits(stack)
          v == IF Ev.mon THEN KVerdict(S, Ev.h) ELSE "unknown"
          definitive == Ev.res = "UNSAT" \/ (Ev.res = "SAT" /\ Ev.complete /\ Ev.exact) IN
-     /\ memo' = IF definitive /\ Key(S) \notin DOMAIN memo THEN (Key(S) :> Ev.res) @@ memo ELSE memo
+     \* sequences with late declarations neither feed nor consult the memo: their verdicts are judged by the kernel
+     \* alone, so that a finding about late declarations cannot show up in another sequence under another label
+     /\ memo' = IF definitive /\ ~late /\ Key(S) \notin DOMAIN memo THEN (Key(S) :> Ev.res) @@ memo ELSE memo
      /\ PrintT("@@SAT " \o ToJson([l |-> l, r |-> Ev.res, v |-> v]))
      /\ Note( If(~CheckGuard(Ev.res, Ev.complete /\ Ev.exact, v), V("C22", [verdict |-> Ev.res, kernel |-> v])) \cup
-              If(definitive /\ Key(S) \in DOMAIN memo /\ memo[Key(S)] # Ev.res,
+              If(definitive /\ ~late /\ Key(S) \in DOMAIN memo /\ memo[Key(S)] # Ev.res,
                  V("C22", [sameLiteralsDifferentVerdicts |-> <<memo[Key(S)], Ev.res>>])) )
 TrExpl ==   \* explanation of the last inconsistency
-  /\ Ev.e = "expl" /\ l' = l + 1 /\ UNCHANGED <<stack, bad, hist, tt, theory, memo, okLen, stale>>
+  /\ Ev.e = "expl" /\ l' = l + 1 /\ UNCHANGED <<stack, bad, hist, tt, theory, memo, okLen, stale, late>>
   /\ LET E == { [t |-> Ev.lits[i].t, n |-> Ev.lits[i].n, s |-> Ev.lits[i].s] : i \in DOMAIN Ev.lits } IN
      Note( If(~(Key(E) \subseteq Key(Lits(stack))), V("C22", [m |-> "explanation mentions a literal that is not asserted"])) \cup
            If(Ev.mon /\ KVerdict(E, Ev.h) = "sat", V("C11", [m |-> "explanation is theory-satisfiable"])) )
 TrDeduce ==  \* a deduced literal d: stack and not d must not be satisfiable
-  /\ Ev.e = "deduce" /\ l' = l + 1 /\ UNCHANGED <<stack, bad, hist, tt, theory, memo, okLen, stale>>
+  /\ Ev.e = "deduce" /\ l' = l + 1 /\ UNCHANGED <<stack, bad, hist, tt, theory, memo, okLen, stale, late>>
   /\ LET nd == [t |-> Ev.t, n |-> Ev.n, s |-> ~Ev.s] IN
      Note( If(Ev.mon /\ ~DeduceGuard(KVerdict(Lits(stack) \cup {nd}, Ev.h)), V("C11", [deductionNotEntailed |-> Ev.t])) )
 TrPop ==
-  /\ Ev.e = "pop" /\ l' = l + 1 /\ UNCHANGED <<tt, theory, memo>>
+  /\ Ev.e = "pop" /\ l' = l + 1 /\ UNCHANGED <<tt, theory, memo, late>>
   /\ PopLegal(Ev.n) /\ PopEff(Ev.n)
   /\ okLen' = IF Len(stack) - Ev.n < okLen THEN Len(stack) - Ev.n ELSE okLen
   /\ stale' = (stale \/ Len(stack) - Ev.n > okLen)
